@@ -71,9 +71,16 @@ func main() {
 			fmt.Println(id)
 		}
 	default:
+		if f := extraCommands[os.Args[1]]; f != nil {
+			f()
+			return
+		}
 		usage()
 	}
 }
+
+// extraCommands: sub-commands registered by individual checks (e.g. the race pass of C06).
+var extraCommands = map[string]func(){}
 
 func usage() {
 	fmt.Fprintln(os.Stderr, "usage: vcheck run <ID> <quick|thorough> | vcheck replay <file> | vcheck list")
